@@ -141,3 +141,23 @@ def stmt_of(parent_of: Callable[[ast.AST], Optional[ast.AST]], node: ast.AST) ->
 
 def names_in(e: ast.AST) -> Set[str]:
     return {n.id for n in ast.walk(e) if isinstance(n, ast.Name)}
+
+
+def concat_parts(e):
+    """Parts of a 1-D concatenation however it is spelled: np.r_[a, b, ..], np.concatenate((a, b, ..)) / np.hstack((a, b, ..)) (no axis or axis=0);
+    a one-element list literal [k] counts as the scalar k (that is what it contributes).  None when `e` is not such a concatenation."""
+    import ast as _ast
+    if isinstance(e, _ast.Subscript) and isinstance(e.value, _ast.Attribute) and e.value.attr == "r_":
+        return list(e.slice.elts) if isinstance(e.slice, _ast.Tuple) else [e.slice]
+    if isinstance(e, _ast.Call) and call_name(e) in ("concatenate", "hstack") and len(e.args) >= 1 and isinstance(e.args[0], (_ast.Tuple, _ast.List)):
+        ax = [k for k in e.keywords if k.arg == "axis"]
+        if ax and not (isinstance(ax[0].value, _ast.Constant) and ax[0].value.value in (0, None)):
+            return None
+        out = []
+        for x in e.args[0].elts:
+            if isinstance(x, (_ast.List, _ast.Tuple)) and len(x.elts) == 1:
+                out.append(x.elts[0])
+            else:
+                out.append(x)
+        return out
+    return None
